@@ -79,6 +79,7 @@ def run_case(name, patch: Path, expect, checks):
 def main() -> int:
     only = set(filter(None, os.environ.get("SELFTEST_ONLY", "").split(",")))
     cases = []
+    obsolete = {}
     for p in sorted((VERIF / "mutants").glob("*.patch")):
         head = [ln[2:].strip() for ln in p.read_text().splitlines() if ln.startswith("# ")]
         expect = next((h.split(":", 1)[1].split() for h in head if h.startswith("expect:")), ["silent"])
@@ -89,17 +90,30 @@ def main() -> int:
         if d.is_dir() and (d / "patch.diff").exists():
             meta = json.loads((d / "meta.json").read_text())
             exp = meta.get("detected_by") or [meta.get("property")]
+            if meta.get("obsolete"):
+                obsolete[d.name] = meta["obsolete"]
             cases.append((d.name, d / "patch.diff", exp, exp))
     out = []
     bad = 0
     for name, patch, expect, checks in cases:
         if only and name not in only:
             continue
-        r = run_case(name, patch, expect, checks)
+        if name in obsolete:
+            r = {"name": name, "expect": expect, "verdict": "OBSOLETE SEED (" + obsolete[name] + ")", "stale": True}
+        else:
+            r = run_case(name, patch, expect, checks)
         out.append(r)
         ok = r.get("verdict") == "ok" or r.get("stale")
         bad += not ok
         log(f"[selftest] {name:8s} expect={' '.join(expect):14s} alarmed={','.join(r.get('alarmed', [])) or '-':20s} {r.get('verdict', r.get('error'))}")
-    (VERIF / "selftest_result.json").write_text(json.dumps(out, indent=1))
+    res_file = VERIF / "selftest_result.json"
+    merged = {}
+    if only and res_file.exists():  # a partial run updates the cases it ran and keeps the others
+        try:
+            merged = {r["name"]: r for r in json.loads(res_file.read_text())}
+        except (ValueError, KeyError, TypeError):
+            merged = {}
+    merged.update({r["name"]: r for r in out})
+    res_file.write_text(json.dumps([merged[k] for k in sorted(merged)], indent=1))
     log(f"[selftest] {len(out) - bad}/{len(out)} cases as expected")
     return 0 if bad == 0 else 1
